@@ -8,7 +8,7 @@ from hypothesis import strategies as st
 
 from .. import gen, model
 from ..core import SKIP, Enum, Sub
-from ..util import arr, compare, flags, tarr
+from ..util import carr, arr, compare, flags, tarr
 
 ID = "C08"
 RULE = ("n=0..12 points; times biased to ISO-week / day-of-year edges (Dec 28-Jan 4 of 2018-2022, Feb 28/29, Mar 1) as "
@@ -175,7 +175,7 @@ def check_clim(case, rec):
     cfg = rec.call(site + "(config)", build_config, case)
     if cfg is SKIP:
         return
-    got = flags(rec, site, rec.call(site, _clim().climatology_test, cfg, arr(x), tt, arr(z)), n)
+    got = flags(rec, site, rec.call(site, _clim().climatology_test, cfg, carr(case, x), tt, carr(case, z)), n)
     if got is SKIP:
         return
     for i, (g, a) in enumerate(zip(got, allowed)):
@@ -219,7 +219,7 @@ def enum_cases(chunk):
                    "tc": "dt64", "cfg": "dicts"}
 
 
-SUBS = [Sub("climatology", clim_case, check_clim, quick=3000, thorough=60000)]
+SUBS = [Sub("climatology", lambda tier: gen.with_carrier(clim_case(tier)), check_clim, quick=3000, thorough=60000)]
 ENUMS = [Enum("calendar_days", enum_chunks, enum_cases, check_clim,
               describe="every calendar day 2018-12-24..2022-01-07 against single periodic members (each period kind; "
                        "every single value of the period in the thorough tier, a 1/12 subsample in quick)",
